@@ -17,13 +17,13 @@ from .. import env, coq, runner, gates, tables, opsem, circuits as gcirc, mcircu
 
 LEVEL = 'translation_validation'
 META = dict(
-    text='Translation validation with proven components. Coq theorems: the trace-equivalence validator run on the real output of every "move, never change" transformer is sound AND complete (it accepts exactly the reorderings obtained by exchanging adjacent operations that share no qubit, no measurement key and no measured/controlling key pair), the projection lemma, trace-equivalent operation lists compute the same tensor for every ring, rank and input and keep every per-key measurement order; every constant gauge emitted by the gauge-compiling transformers satisfies (post0 x post1) . G\' . (pre0 x pre1) = c . G with |c| = 1 exactly in Q(zeta_8) (float instance to 2^-30 where entries are outside the field) and every dynamical-decoupling base sequence multiplies to a scalar; the phase-tracking loop of eject_z keeps the invariant Phi(tracked phases) . emitted = original prefix and emits an equal circuit for every denotation satisfying the commutation laws. On every run each exported transformer x options (tags_to_ignore, deep, tolerances, strategies) is executed on generated circuits (unitary, measured, classically controlled, tagged, nested, parameterised) and its output is compared with its input inside Coq through the reference semantics: same unitary up to global phase, or same joint distribution of per-key measurement records with the same conditional state on the qubits that are not terminally measured; defer/dephase/drop_terminal_measurements, lightcone_filter and the symbolized merge under their documented contracts; every branch of every gauge selector is enumerated with a scripted prng; the eject_z model is compared with the real transformer; ignored-tag operations untouched, sub-circuits untouched unless deep, argument unchanged.',
+    text='Translation validation with proven components. Coq theorems: the trace-equivalence validator run on the real output of every "move, never change" transformer is sound AND complete (it accepts exactly the reorderings obtained by exchanging adjacent operations that share no qubit, no measurement key and no measured/controlling key pair), the projection lemma, trace-equivalent operation lists compute the same tensor for every ring, rank and input and keep every per-key measurement order; every constant gauge emitted by the gauge-compiling transformers satisfies (post0 x post1) . G\' . (pre0 x pre1) = c . G with |c| = 1 exactly in Q(zeta_8) (float instance to 2^-30 where entries are outside the field) and every dynamical-decoupling base sequence multiplies to a scalar; the phase-tracking loop of eject_z keeps the invariant Phi(tracked phases) . emitted = original prefix and emits an equal circuit for every denotation satisfying the commutation laws. A Pauli-basis measurement enters the reference semantics through its signed observable s.P as the keyed pair [(I+sP)/2; (I-sP)/2], proven (exactly, all strings of length <= 3, both signs) to be the complementary orthogonal self-adjoint idempotent resolution of s.P. On every run each exported transformer x options (tags_to_ignore, deep, tolerances, strategies) is executed on generated circuits (unitary, measured, classically controlled, tagged, nested, parameterised; measurement-like operations that are not a MeasurementGate: Pauli-basis measurements and keyed channels; circuits over few gates in many placements) and on two fixed grids (every kind of phase / flip in front of Pauli-basis measurements and keyed channels, for every transformer that accepts measurements; every overlapping placement of gate pairs whose commutation depends on the placement, for the commutation-based sorter) and its output is compared with its input inside Coq through the reference semantics: same unitary up to global phase, or same joint distribution of per-key measurement records with the same conditional state on the qubits that are not terminally measured; defer/dephase/drop_terminal_measurements, lightcone_filter and the symbolized merge under their documented contracts; every branch of every gauge selector is enumerated with a scripted prng; the eject_z model is compared with the real transformer; ignored-tag operations untouched, sub-circuits untouched unless deep, argument unchanged.',
     note='Level translation_validation: the quantifier over programs is sampled for every rewriting pass; only the reorder-only family is decided by a theorem applied to each real output (and eject_z by a model theorem plus correspondence over a restricted alphabet). Trusted: Coq kernel (primitive floats for the float-instance theorem); float instance (tolerance 1e-6) for the numeric comparison; each operation\'s own cirq.unitary / cirq.kraus / measurement description (tied to the documented matrices by C03/C04/C09) and CircuitOperation.mapped_circuit for flattening (C12); Python adapters (operation identification by Cirq equality, resources through cirq.measurement_key_objs / cirq.control_keys, cirq.phase_by as the phased gate of the eject_z correspondence). Routing, target gatesets and analytical decompositions exported from the same package belong to C07/C15; map_clean_and_borrowable_qubits is not exercised; RandomizedMeasurements changes the measured basis by design.',
     technique='Rocq/Coq proof of a sound and complete trace-equivalence validator + exact gauge identities in Q(zeta_8) + model of the eject_z loop with its invariant + vm_compute translation validation of every transformer output against the reference semantics',
 )
 
 TOL = '0x1p-20'
-PRE_NUM = gates.COQ_HEADER + 'From VF Require Import Sim.Ref Sim.Measure Base.Trace Xform.Validate.\n'
+PRE_NUM = gates.COQ_HEADER + 'From VF Require Import Sim.Ref Sim.Measure Base.Trace Xform.Validate Xform.PauliMeas.\n'
 PRE_TRACE = ('From Coq Require Import List Bool.\nFrom VF Require Import Base.Harness Base.Trace.\nImport ListNotations.\n'
              'Definition T := mkTop.\n')
 
@@ -123,12 +123,21 @@ def snapshot(cirq, circuit):
 
 
 def op_term(cirq, op, axis_of, keyid):
-    """Gallina mop for one operation through its own description (extends opsem.op_to_mop by keyed channels)."""
+    """Gallina mop for one operation through its own description.  opsem.op_to_mop covers unitaries, computational-basis
+    measurements, classical control, channels and keyed channels (the index of the selected operator is the record); a
+    Pauli-basis measurement enters through its signed observable (Xform/PauliMeas.v `pauli_meas`: the keyed pair of
+    spectral projectors, C06_pauli_proj_table_spec), never through the implementation's own decomposition."""
     g = op.gate
-    if isinstance(g, (cirq.KrausChannel, cirq.MixedUnitaryChannel)) and cirq.is_measurement(op):
-        ks = cirq.kraus(op)
+    if isinstance(g, cirq.PauliMeasurementGate) and not isinstance(op.untagged, cirq.ClassicallyControlledOperation):
+        if g.confusion_matrix is not None:
+            raise opsem.Unsupported('Pauli measurement with a confusion matrix')
+        obs = g.observable()
+        coef = complex(obs.coefficient)
+        if coef not in (1, -1) or len(obs) > 3:
+            raise opsem.Unsupported(f'Pauli measurement of {obs!r}')
+        letters = '; '.join(('PI', 'PX', 'PY', 'PZ')[int(m)] for m in obs.pauli_mask)
         ax = [axis_of[q] for q in op.qubits]
-        return f'(MKraus [{"; ".join(opsem.rmat(k) for k in ks)}] {gates.nlist(cirq.qid_shape(op))} {gates.nlist(ax)})'
+        return f'(pauli_meas FOps {keyid(str(g.key))}%nat {"true" if coef == -1 else "false"} [{letters}] {gates.nlist(ax)})'
     return opsem.op_to_mop(cirq, op, axis_of, keyid)
 
 
@@ -399,18 +408,41 @@ def rand_1q(cirq, rng, paulis=0.0):
     return cirq.rz(gates.draw_angle(rng))
 
 
-def gen_layers(cirq, rng, twoq=None, n=None, depth=None, measured=False, cc=False, paulis=0.0):
-    """Alternating moments of single-qubit gates (some qubits idle) and two-qubit gates, optional measurements / control."""
+def rand_measlike(cirq, rng, free, key, channels=True, plain=0.15):
+    """One measurement-like operation (cirq.is_measurement) on qubits drawn from `free`: a computational-basis measurement, a
+    Pauli-basis measurement (1-2 qubits, letters X/Y/Z, sign +1/-1) or a keyed channel (records which operator was applied).
+    Every one of them records a single bit, so keys may repeat."""
+    r = rng.random()
+    if r < plain:
+        return cirq.measure(rng.choice(free), key=key, invert_mask=(rng.random() < 0.3,))
+    if channels and r < plain + 0.17:
+        q = rng.choice(free)
+        if rng.random() < 0.5:
+            pr = rng.choice([0.25, 0.5])
+            return cirq.MixedUnitaryChannel([(1 - pr, np.eye(2)), (pr, cirq.unitary(rng.choice([cirq.X, cirq.Y, cirq.H, cirq.S])))], key=key).on(q)
+        g = rng.choice([0.2, 0.36])
+        return cirq.KrausChannel([np.array([[1, 0], [0, math.sqrt(1 - g)]]), np.array([[0, math.sqrt(g)], [0, 0]])], key=key).on(q)
+    k = 2 if (len(free) >= 2 and rng.random() < 0.3) else 1
+    qs = rng.sample(list(free), k)
+    letters = ''.join(rng.choice('XXYYZ') for _ in qs)
+    return cirq.PauliMeasurementGate(cirq.DensePauliString(letters, coefficient=rng.choice([1, 1, -1])), key=key).on(*qs)
+
+
+def gen_layers(cirq, rng, twoq=None, n=None, depth=None, measured=False, cc=False, paulis=0.0, general=False, channels=True):
+    """Alternating moments of single-qubit gates (some qubits idle) and two-qubit gates, optional measurements / control.
+    general=True: the measuring operations are measurement-like operations of every kind (rand_measlike), more of them
+    mid-circuit, and at least one of them is not a cirq.MeasurementGate."""
     n = n or rng.randint(2, 4)
     qs = cirq.LineQubit.range(n)
     twoq = twoq or [cirq.CZ, cirq.CZ ** 0.5, cirq.ISWAP, cirq.CNOT, cirq.SWAP, cirq.CZ ** gates.draw_exp(rng)]
     moments = []
     keys_seen = []
+    nrec = 0
     for d in range(depth or rng.randint(3, 7)):
         r = rng.random()
         if r < 0.5:
             moments.append(cirq.Moment(rand_1q(cirq, rng, paulis).on(q) for q in qs if rng.random() < 0.7))
-        elif r < 0.9 or not measured:
+        elif r < (0.8 if general else 0.9) or not measured or (general and nrec >= 3):
             order = list(qs)
             rng.shuffle(order)
             ops_ = []
@@ -427,24 +459,117 @@ def gen_layers(cirq, rng, twoq=None, n=None, depth=None, measured=False, cc=Fals
                     ops_.append(o)
             moments.append(cirq.Moment(ops_))
         else:
-            q = rng.choice(qs)
             key = rng.choice(['a', 'b'])
-            moments.append(cirq.Moment([cirq.measure(q, key=key)]))
+            if general:
+                moments.append(cirq.Moment([rand_measlike(cirq, rng, list(qs), key, channels=channels)]))
+            else:
+                moments.append(cirq.Moment([cirq.measure(rng.choice(qs), key=key)]))
             keys_seen.append(key)
+            nrec += 1
     c = cirq.Circuit(moments)
-    if measured:
+    if measured and not general:
         k = rng.randint(1, min(n, 2))
         c.append(cirq.Moment([cirq.measure(*rng.sample(list(qs), k), key='m')]))
+    elif measured:
+        free, last = list(qs), []
+        for key in ('m', 'n')[:rng.randint(1, 2)]:
+            # the first terminal one is never a plain measurement: the class is present in every generated circuit
+            o = rand_measlike(cirq, rng, free, key, channels=channels, plain=0.0 if key == 'm' else 0.3)
+            if key == 'm' and not isinstance(o.gate, cirq.PauliMeasurementGate) and rng.random() < 0.5:
+                o = rand_measlike(cirq, rng, free, key, channels=False, plain=0.0)
+            last.append(o)
+            free = [q for q in free if q not in o.qubits]
+            if not free:
+                break
+        c.append(cirq.Moment(last))
     return c
 
 
-def gen_ejectable(cirq, rng, measured=False):
+def gen_ejectable(cirq, rng, measured=False, general=False):
     twoq = [cirq.CZ, cirq.CZ ** gates.draw_exp(rng), cirq.SWAP, cirq.ISWAP, cirq.ISWAP ** 0.5, cirq.CNOT, cirq.ZZ ** gates.draw_exp(rng),
             cirq.FSimGate(gates.draw_angle(rng), gates.draw_angle(rng)), cirq.PhasedISwapPowGate(phase_exponent=gates.draw_exp(rng), exponent=rng.choice([1.0, 0.5, -1.0])),
             cirq.SwapPowGate(exponent=rng.choice([1.0, -1.0, 3.0, 0.5]), global_shift=rng.choice([0.0, 0.5])),
             cirq.ISwapPowGate(exponent=rng.choice([1.0, -1.0, 3.0]), global_shift=rng.choice([0.0, -0.5]))]
-    c = gen_layers(cirq, rng, twoq=twoq, measured=measured, cc=measured and rng.random() < 0.5, paulis=0.5)
+    c = gen_layers(cirq, rng, twoq=twoq, measured=measured, cc=measured and rng.random() < 0.5, paulis=0.5, general=general)
     return c
+
+
+def alphabet_pool(cirq):
+    """Gates whose commutation / merging behaviour depends on WHICH of their qubits a neighbour touches (control vs target,
+    diagonal vs not) next to symmetric ones."""
+    return [cirq.CNOT, cirq.CNOT, cirq.CZ, cirq.X, cirq.Z, cirq.H, cirq.Y, cirq.S, cirq.T, cirq.SWAP, cirq.ISWAP, cirq.CZ ** 0.5,
+            cirq.X ** 0.5, cirq.ControlledGate(cirq.Y), cirq.ControlledGate(cirq.H), cirq.CCX, cirq.CCZ, cirq.CSWAP, cirq.ZZ ** 0.25,
+            cirq.XX ** 0.5, cirq.ControlledGate(cirq.Z, control_values=[0]), cirq.rx(0.5)]
+
+
+def gen_alphabet(cirq, rng, n=None):
+    """Many operations over FEW distinct gates (2-4 per circuit) on 3-4 qubits: the same gate recurs on different qubits, in
+    different orientations and with different neighbours - the inputs on which anything a transformer remembers per gate
+    (instead of per operation) goes wrong."""
+    n = n or rng.randint(3, 4)
+    qs = cirq.LineQubit.range(n)
+    pool = [g for g in alphabet_pool(cirq) if cirq.num_qubits(g) <= n]
+    two = [g for g in pool if cirq.num_qubits(g) >= 2]
+    one = [g for g in pool if cirq.num_qubits(g) == 1]
+    alphabet = [rng.choice(two), rng.choice(one)] + [rng.choice(pool) for _ in range(rng.randint(0, 2))]
+    c = cirq.Circuit()
+    for _ in range(rng.randint(4, 12)):
+        g = rng.choice(alphabet)
+        c.append(g.on(*rng.sample(list(qs), cirq.num_qubits(g))),
+                 strategy=cirq.InsertStrategy.NEW if rng.random() < 0.15 else cirq.InsertStrategy.EARLIEST)
+    return c
+
+
+def placement_grid(cirq, rng):
+    """Deterministic part of the 'few gates, many placements' class: for fixed gate pairs (A, B) whose commutation depends on the
+    placement, every overlapping placement A(p), B(q) on three qubits is a block; one circuit per block starts with that block
+    and continues with five other blocks in a drawn order, so every block is the first thing the transformer sees exactly once.
+    Only the tail depends on the seed."""
+    qs = cirq.LineQubit.range(3)
+    pairs = [(cirq.CNOT, cirq.X), (cirq.CNOT, cirq.Z), (cirq.CNOT, cirq.CZ), (cirq.CNOT, cirq.CNOT), (cirq.ControlledGate(cirq.Y), cirq.S),
+             (cirq.CCX, cirq.X), (cirq.ISWAP, cirq.Z)]
+    out = []
+    for A, B in pairs:
+        na, nb = cirq.num_qubits(A), cirq.num_qubits(B)
+        blocks = []
+        for pa in itertools.permutations(qs, na):
+            for pb in itertools.permutations(qs, nb):
+                if set(pa) & set(pb) and not (A == B and pa == pb):
+                    blocks.append([A.on(*pa), B.on(*pb)])
+        for i, first in enumerate(blocks):
+            rest = blocks[:i] + blocks[i + 1:]
+            rng.shuffle(rest)
+            tail = rest[:5]
+            out.append((f'placement:{A}/{B}:{i}', cirq.Circuit([first] + tail)))
+    return out
+
+
+def measlike_grid(cirq):
+    """Deterministic part of the 'measurement-like operation that is not a cirq.MeasurementGate' class: every kind of phase /
+    flip a transformer may hold or drop (Z, S, T, Z**t, the z part of PhasedXZ, X, Y, PhasedX flips, CZ**t) directly in front
+    of Pauli-basis measurements in the X, Y, Z bases (both signs, one and two qubits) and of keyed channels, plus the same after
+    a swap-like gate and with a classically controlled operation reading the recorded bit."""
+    q0, q1, q2 = cirq.LineQubit.range(3)
+    def pm(s, key, *qs, c=1):
+        return cirq.PauliMeasurementGate(cirq.DensePauliString(s, coefficient=c), key=key).on(*qs)
+    flip = cirq.MixedUnitaryChannel([(0.75, np.eye(2)), (0.25, cirq.unitary(cirq.X))], key='b')
+    damp = cirq.KrausChannel([np.array([[1, 0], [0, math.sqrt(0.64)]]), np.array([[0, 0.6], [0, 0]])], key='c')
+    M = cirq.Moment
+    return [
+        ('z-phase before X/Y/-X', cirq.Circuit(M(cirq.H(q0), cirq.H(q1), cirq.H(q2)), M(cirq.Z(q0), cirq.S(q1), cirq.T(q2)),
+                                               M(pm('X', 'a', q0), pm('Y', 'b', q1), pm('X', 'c', q2, c=-1)))),
+        ('z-phase before XX, Z control', cirq.Circuit(M(cirq.H(q0), cirq.X(q2) ** 0.4), M(cirq.CNOT(q0, q1), cirq.Z(q2)), M(cirq.Z(q1) ** 0.3),
+                                                      M(pm('XX', 'a', q0, q1), pm('Z', 'b', q2)))),
+        ('phxz / keyed channels', cirq.Circuit(M(cirq.H(q0), cirq.H(q1), cirq.Y(q2) ** 0.3),
+                                               M(cirq.PhasedXZGate(x_exponent=0.5, z_exponent=0.25, axis_phase_exponent=0.125).on(q0), cirq.Z(q1) ** -0.5, cirq.S(q2)),
+                                               M(pm('Y', 'a', q0), flip.on(q1), damp.on(q2)), M(cirq.H(q1)), M(cirq.measure(q1, key='m')))),
+        ('pauli flips before Y/X/Z', cirq.Circuit(M(cirq.H(q0), cirq.H(q1), cirq.X(q2) ** 0.25), M(cirq.X(q0), cirq.Y(q1), cirq.PhasedXPowGate(phase_exponent=0.25).on(q2)),
+                                                  M(pm('Y', 'a', q0), pm('X', 'b', q1), pm('Z', 'c', q2, c=-1)))),
+        ('mid-circuit, control, swap-like', cirq.Circuit(M(cirq.H(q0), cirq.H(q1)), M(cirq.S(q0)), M(pm('X', 'a', q0)), M(cirq.Z(q1).with_classical_controls('a')),
+                                                         M(cirq.ISWAP(q0, q1)), M(cirq.T(q0)), M(pm('Y', 'b', q0), cirq.measure(q1, key='m')))),
+        ('diagonal 2q before XY, keyed channel then X', cirq.Circuit(M(cirq.H(q0), cirq.H(q1), cirq.H(q2)), M(cirq.CZ(q0, q1) ** 0.5, cirq.Z(q2)),
+                                                                    M(pm('XY', 'a', q0, q1), flip.on(q2)), M(cirq.S(q2)), M(pm('X', 'c', q2)))),
+    ]
 
 
 def gen_param(cirq, rng):
@@ -515,6 +640,16 @@ def gen_circuit(cirq, rng, kinds, tags=True, nest=True, mods=None):
         c = gen_layers(cirq, rng)
     elif kind == 'layers-measured':
         c = gen_layers(cirq, rng, measured=True)
+    elif kind == 'gmeasured':           # measurement-like operations of every kind, classical control on their keys
+        c = gen_layers(cirq, rng, measured=True, cc=rng.random() < 0.5, general=True, paulis=0.3)
+    elif kind == 'gmeasured-nocc':
+        c = gen_layers(cirq, rng, measured=True, general=True, paulis=0.3)
+    elif kind == 'pmeasured':           # the same without keyed channels
+        c = gen_layers(cirq, rng, measured=True, cc=rng.random() < 0.5, general=True, paulis=0.3, channels=False)
+    elif kind == 'ejectable-gmeasured':
+        c = gen_ejectable(cirq, rng, measured=True, general=True)
+    elif kind == 'alphabet':
+        c = gen_alphabet(cirq, rng)
     elif kind.startswith('gauge:'):
         parts = kind.split(':')
         tw = GAUGE_TARGETS[parts[1]](cirq, rng, mods)
@@ -524,7 +659,7 @@ def gen_circuit(cirq, rng, kinds, tags=True, nest=True, mods=None):
         c = gen_measured(cirq, rng)
     if rng.random() < 0.3:
         c.insert(rng.randint(0, len(c)), cirq.Moment())
-    if rng.random() < 0.25 and kind in ('unitary', 'ejectable', 'layers'):
+    if rng.random() < 0.25 and kind in ('unitary', 'ejectable', 'layers', 'alphabet'):
         qs = sorted(c.all_qubits())
         c.insert(rng.randint(0, len(c)), cirq.Z(rng.choice(qs)) ** rng.choice([1e-10, 2.0, 1e-9, 4.0, 0.0]))
     return decorate(cirq, rng, c, tags=tags, nest=nest), kind
@@ -571,16 +706,16 @@ def make_configs(cirq, mods):
     C = []
     def ctx_call(f, **kw):
         return lambda c, context: f(c, context=context, **kw)
-    MEAS = ('unitary', 'measured', 'terminal')
-    RE = ('unitary', 'measured', 'terminal', 'qudit')
+    MEAS = ('unitary', 'measured', 'terminal', 'gmeasured')
+    RE = ('unitary', 'measured', 'terminal', 'qudit', 'gmeasured')
     # ---- reorder-only ----
     C.append(Cfg('align_left', '', ctx_call(t.align_left), 'reorder', kinds=RE, inplace='index'))
     C.append(Cfg('align_right', '', ctx_call(t.align_right), 'reorder', kinds=RE, inplace='index_from_end'))
     C.append(Cfg('stratified_circuit', 'no categories', ctx_call(t.stratified_circuit), 'reorder', kinds=RE, n=0.5))
     C.append(Cfg('stratified_circuit', 'gate types', ctx_call(t.stratified_circuit, categories=[cirq.XPowGate, cirq.ZPowGate, cirq.MeasurementGate]), 'reorder', kinds=RE, n=0.5))
     C.append(Cfg('stratified_circuit', 'predicate', ctx_call(t.stratified_circuit, categories=[lambda op: len(op.qubits) == 1, cirq.CZ]), 'reorder', kinds=RE, n=0.5))
-    C.append(Cfg('synchronize_terminal_measurements', 'after_other_operations=True', ctx_call(t.synchronize_terminal_measurements), 'reorder', kinds=('measured', 'terminal', 'measured')))
-    C.append(Cfg('synchronize_terminal_measurements', 'after_other_operations=False', ctx_call(t.synchronize_terminal_measurements, after_other_operations=False), 'reorder', kinds=('measured', 'terminal', 'measured')))
+    C.append(Cfg('synchronize_terminal_measurements', 'after_other_operations=True', ctx_call(t.synchronize_terminal_measurements), 'reorder', kinds=('measured', 'terminal', 'measured', 'gmeasured')))
+    C.append(Cfg('synchronize_terminal_measurements', 'after_other_operations=False', ctx_call(t.synchronize_terminal_measurements, after_other_operations=False), 'reorder', kinds=('measured', 'terminal', 'measured', 'gmeasured')))
     C.append(Cfg('drop_empty_moments', '', ctx_call(t.drop_empty_moments), 'reorder', kinds=RE, n=0.5))
     C.append(Cfg('index_tags', '', ctx_call(t.index_tags, target_tags={KEEP}), 'reorder', kinds=RE, ignore=False, same=eq_untagged, n=0.5))
     C.append(Cfg('remove_tags', '', ctx_call(t.remove_tags, target_tags={KEEP}), 'reorder', kinds=RE, ignore=False, same=eq_untagged, n=0.5))
@@ -595,18 +730,19 @@ def make_configs(cirq, mods):
     C.append(Cfg('map_operations', 'identity', lambda c, context: t.map_operations(c, lambda op, i: op, deep=context.deep, tags_to_ignore=context.tags_to_ignore), 'reorder', kinds=RE, n=0.4))
     C.append(Cfg('map_operations_and_unroll', 'identity', lambda c, context: t.map_operations_and_unroll(c, lambda op, i: op, deep=context.deep, tags_to_ignore=context.tags_to_ignore), 'reorder', kinds=RE, n=0.4))
     # ---- semantic ----
-    U = ('unitary', 'measured', 'terminal', 'unitary')
+    U = ('unitary', 'measured', 'terminal', 'unitary', 'gmeasured', 'alphabet')
+    EJ = U + ('ejectable', 'ejectable-gmeasured')
     def raises_documented(kind_of_error, when):
         return lambda circuit, deep, ignore, e: isinstance(e, kind_of_error) and when(circuit, deep, ignore)
     C.append(Cfg('expand_composite', '', ctx_call(t.expand_composite), 'semantic', kinds=U, sub_exempt=True))
     C.append(Cfg('expand_composite', 'no_decomp=1q', ctx_call(t.expand_composite, no_decomp=lambda op: len(op.qubits) == 1), 'semantic', kinds=U, sub_exempt=True, n=0.5))
-    C.append(Cfg('eject_z', 'atol=0', ctx_call(t.eject_z), 'semantic', kinds=U + ('ejectable',), n=1.3))
-    C.append(Cfg('eject_z', 'atol=1e-8', ctx_call(t.eject_z, atol=1e-8), 'semantic', kinds=U + ('ejectable',), n=0.6))
+    C.append(Cfg('eject_z', 'atol=0', ctx_call(t.eject_z), 'semantic', kinds=EJ, n=1.3))
+    C.append(Cfg('eject_z', 'atol=1e-8', ctx_call(t.eject_z, atol=1e-8), 'semantic', kinds=EJ, n=0.6))
     C.append(Cfg('eject_z', 'eject_parameterized', ctx_call(t.eject_z, eject_parameterized=True), 'semantic', kinds=('param',), n=0.6))
-    C.append(Cfg('eject_phased_paulis', '', ctx_call(t.eject_phased_paulis), 'semantic', kinds=U + ('ejectable',), n=1.3))
+    C.append(Cfg('eject_phased_paulis', '', ctx_call(t.eject_phased_paulis), 'semantic', kinds=EJ, n=1.3))
     C.append(Cfg('eject_phased_paulis', 'eject_parameterized', ctx_call(t.eject_phased_paulis, eject_parameterized=True), 'semantic', kinds=('param',), n=0.6))
     C.append(Cfg('drop_negligible_operations', '', ctx_call(t.drop_negligible_operations), 'semantic', kinds=U))
-    C.append(Cfg('drop_diagonal_before_measurement', '', ctx_call(t.drop_diagonal_before_measurement), 'semantic', kinds=('measured', 'terminal', 'ejectable-measured')))
+    C.append(Cfg('drop_diagonal_before_measurement', '', ctx_call(t.drop_diagonal_before_measurement), 'semantic', kinds=('measured', 'terminal', 'ejectable-measured', 'ejectable-gmeasured')))
     C.append(Cfg('merge_single_qubit_gates_to_phased_x_and_z', '', ctx_call(t.merge_single_qubit_gates_to_phased_x_and_z), 'semantic', kinds=U))
     C.append(Cfg('merge_single_qubit_gates_to_phxz', '', ctx_call(t.merge_single_qubit_gates_to_phxz), 'semantic', kinds=U))
     C.append(Cfg('merge_single_qubit_moments_to_phxz', '', ctx_call(t.merge_single_qubit_moments_to_phxz), 'semantic', kinds=U + ('layers',)))
@@ -663,7 +799,8 @@ def make_configs(cirq, mods):
     C.append(Cfg('merge_moments_batch', '1q moments', lambda c, context: t.merge_moments_batch(c, merge_batch, tags_to_ignore=context.tags_to_ignore, deep=context.deep), 'semantic', kinds=U + ('layers',), n=0.7))
     C.append(Cfg('map_operations', 'decompose_once', lambda c, context: t.map_operations(c, lambda op, i: cirq.decompose_once(op, default=op) if not cirq.is_measurement(op) and not isinstance(op.untagged, cirq.CircuitOperation) else op, deep=context.deep, tags_to_ignore=context.tags_to_ignore), 'semantic', kinds=U, n=0.5))
     C.append(Cfg('map_operations_and_unroll', 'decompose_once', lambda c, context: t.map_operations_and_unroll(c, lambda op, i: cirq.decompose_once(op, default=op) if not cirq.is_measurement(op) and not isinstance(op.untagged, cirq.CircuitOperation) else op, deep=context.deep, tags_to_ignore=context.tags_to_ignore), 'semantic', kinds=U, n=0.5))
-    C.append(Cfg('insertion_sort_transformer', '', ctx_call(t.insertion_sort_transformer), 'semantic', kinds=U, perm=True))
+    C.append(Cfg('insertion_sort_transformer', '', ctx_call(t.insertion_sort_transformer), 'semantic', kinds=U + ('alphabet', 'alphabet'), perm=True, n=1.5))
+    C[-1].placement = True
     dd_deep = raises_documented(ValueError, lambda c, deep, ign: deep)
     for schema in ('DEFAULT', 'XX_PAIR', 'X_XINV', 'YY_PAIR', 'Y_YINV'):
         C.append(Cfg('add_dynamical_decoupling', f'schema={schema}', ctx_call(t.add_dynamical_decoupling, schema=schema), 'semantic', kinds=('layers', 'unitary', 'layers-measured'), expect_raise=dd_deep, n=0.3, ignore=False, nest=False))
@@ -687,16 +824,16 @@ def make_configs(cirq, mods):
     # an ignored (hence not deferred) measurement whose record a classical control needs: documented ValueError
     defer_ignored = lambda circuit, deep, ignore, e: (ignore and isinstance(e, ValueError) and ('Deferred measurement for key' in str(e) or 'Invalid index for' in str(e))
                                                       and any(cirq.is_measurement(o) for o in collect_ignored(cirq, circuit, True)))
-    C.append(Cfg('defer_measurements', '', ctx_call(t.defer_measurements), 'special', kinds=('measured', 'measured', 'terminal', 'measured-nc'), contract='defer', sub_exempt=True, deep=False, n=1.5,
+    C.append(Cfg('defer_measurements', '', ctx_call(t.defer_measurements), 'special', kinds=('measured', 'measured', 'terminal', 'measured-nc', 'pmeasured'), contract='defer', sub_exempt=True, deep=False, n=1.5,
                  expect_raise=defer_ignored))
     no_cc = raises_documented(ValueError, lambda c, deep, ign: any(cirq.control_keys(op) for op in flatten_ops(cirq, c)))
     C.append(Cfg('dephase_measurements', '', lambda c, context: t.dephase_measurements(c, context=cirq.TransformerContext(deep=True, tags_to_ignore=context.tags_to_ignore)), 'special',
-                 kinds=('measured-nocc', 'terminal'), contract='average', sub_exempt=True, deep=False, expect_raise=no_cc))
+                 kinds=('measured-nocc', 'terminal', 'gmeasured-nocc'), contract='average', sub_exempt=True, deep=False, expect_raise=no_cc))
     def not_terminal(c, deep, ign):
         return not c.are_all_measurements_terminal()
     C.append(Cfg('drop_terminal_measurements', '', lambda c, context: t.drop_terminal_measurements(c, context=cirq.TransformerContext(deep=True, tags_to_ignore=context.tags_to_ignore)), 'special',
-                 kinds=('terminal-nc', 'terminal-nc', 'measured-nocc-nc'), contract='drop_terminal', sub_exempt=True, deep=False, expect_raise=raises_documented(ValueError, not_terminal)))
-    C.append(Cfg('lightcone_filter', '', ctx_call(t.lightcone_filter), 'special', kinds=('measured', 'terminal'), contract='records', ignore=False, deep=False, sub_exempt=True))
+                 kinds=('terminal-nc', 'terminal-nc', 'measured-nocc-nc', 'gmeasured-nocc'), contract='drop_terminal', sub_exempt=True, deep=False, expect_raise=raises_documented(ValueError, not_terminal)))
+    C.append(Cfg('lightcone_filter', '', ctx_call(t.lightcone_filter), 'special', kinds=('measured', 'terminal', 'gmeasured'), contract='records', ignore=False, deep=False, sub_exempt=True))
     return C
 
 
@@ -707,6 +844,8 @@ def run_case(ctx, cirq, cfg, circuit, kind, deep, ignore, checks, case_no, prng_
     rng = random.Random(f'{ctx.seed}:{case_no}')        # per-case stream: a case replays alone
     context = cirq.TransformerContext(deep=deep, tags_to_ignore=(IGN,) if ignore else ())
     desc = f'{cfg.id} deep={deep} tags_to_ignore={(IGN,) if ignore else ()} on {str(circuit)[:600]}'
+    if kind.startswith('grid:'):        # grid circuits are flat: the operation list reads better than the diagram
+        desc = f'{cfg.id} deep={deep} tags_to_ignore=() on {kind}: [{", ".join(str(op) for op in circuit.all_operations())[:700]}]'
     rep = dict(config=cfg.id, deep=deep, ignore=ignore, circuit=repr(circuit), diagram=str(circuit), circuit_kind=kind)
     before = snapshot(cirq, circuit)
     frozen_copy = circuit.freeze() if rng.random() < 0.3 else None
@@ -727,6 +866,8 @@ def run_case(ctx, cirq, cfg, circuit, kind, deep, ignore, checks, case_no, prng_
             sig = 'gate-defect:subcircuit-unitary-raises'
         elif cfg.name == 'add_dynamical_decoupling' and stabilizer_effect_without_tableau_action(cirq, circuit):
             sig = 'gate-defect:has-stabilizer-effect-but-clifford-act-on-fails'
+        elif isinstance(e, TypeError) and 'unhashable type' in str(e) and unhashable_operation(cirq, circuit):
+            sig = 'gate-defect:unhashable-operation'
         ctx.violation(sig, f'{cfg.id} raised {type(e).__name__}: {str(e)[:300]} (deep={deep}, ignore={ignore}) on\n{circuit}',
                       dict(kind='raises', error=traceback.format_exc()[-1500:], **rep))
         return
@@ -815,6 +956,10 @@ def features(cirq, c):
             f.add('classical-control')
         if cirq.is_measurement(op):
             f.add('measurement')
+            if isinstance(op.gate, cirq.PauliMeasurementGate):
+                f.add('pauli-measurement')
+            elif not isinstance(op.gate, cirq.MeasurementGate) and not isinstance(op.untagged, cirq.CircuitOperation):
+                f.add('keyed-channel')
         if cirq.is_parameterized(op):
             f.add('parameterized')
     if any(not m for m in c):
@@ -938,6 +1083,20 @@ def subcircuit_unitary_raises(cirq, circuit):
     return False
 
 
+def unhashable_operation(cirq, circuit):
+    """an operation of the input (at any depth) whose gate cannot be hashed (defect of that gate class: __eq__ without __hash__)"""
+    for op in circuit.all_operations():
+        if isinstance(op.untagged, cirq.CircuitOperation):
+            if unhashable_operation(cirq, op.untagged.circuit):
+                return True
+        elif op.gate is not None:
+            try:
+                hash(op.gate)
+            except TypeError:
+                return True
+    return False
+
+
 def stabilizer_effect_without_tableau_action(cirq, circuit):
     """an operation that claims a stabilizer effect but cannot act on a Clifford tableau (defect of the protocol pair, C13)"""
     for op in circuit.all_operations():
@@ -1039,9 +1198,11 @@ def ejectz_model_stream(ctx, cirq, checks, case_no, n):
                 iops.append(('M', i, ms)); cops.append(cirq.measure(*[qs[x] for x in ms], key=f'k{i}'))
             else:
                 c3 = rng.random()
-                if c3 < 0.4:
+                if c3 < 0.25:
                     o, oq = cirq.H(qs[q]), [q]
-                elif c3 < 0.7 or not pair:
+                elif c3 < 0.5:      # a measurement-like operation that is not a MeasurementGate does not absorb the phase: opaque
+                    o, oq = cirq.PauliMeasurementGate(cirq.DensePauliString(rng.choice('XYZ'), coefficient=rng.choice([1, -1])), key=f'k{i}').on(qs[q]), [q]
+                elif c3 < 0.75 or not pair:
                     o, oq = (cirq.X(qs[q]) ** 0.5).with_tags(IGN), [q]
                 else:
                     o, oq = cirq.CZ(*[qs[x] for x in pair]).with_tags(IGN), pair
@@ -1099,6 +1260,32 @@ def ejectz_model_stream(ctx, cirq, checks, case_no, n):
         checks.append(dict(case=case_no, what='trace', stream='eject_z[model]:output-vs-model', cfg=cfg, rep=rep, desc=f'eject_z model on {str(circuit)[:400]}',
                            expr=trace_terms(cirq, exp_ops, list(out.all_operations()), eq_plain)))
         ctx.count('eject_z[model]', [rep['circuit']], any(t[0] == 'Z' for t in iops), sample=dict(transformer='eject_z[model]', circuit=str(circuit)[:300], output=str(out)[:300]))
+    return case_no
+
+
+def grid_stream(ctx, cirq, configs, checks, case_no):
+    """The fixed grids (same in both tiers and for every seed): measurement-like operations that are not a cirq.MeasurementGate
+    behind every kind of phase / flip, for every configuration that accepts such circuits; the placement grid for the
+    configurations that decide by commutation.  Plain options (deep=False, no ignored tags): the random stream varies those."""
+    grid = measlike_grid(cirq)
+    for cfg in configs:
+        kinds = set(cfg.kinds)
+        if kinds & {'gmeasured', 'ejectable-gmeasured', 'pmeasured', 'gmeasured-nocc'}:
+            for gi, (name, circuit) in enumerate(grid):
+                if cfg.cat == 'reorder' and gi not in (0, 2, 4):
+                    continue            # "move, never change" configurations are decided by the exact trace validator: half the grid
+                ops_ = list(circuit.all_operations())
+                if not kinds & {'gmeasured', 'ejectable-gmeasured'}:
+                    if 'pmeasured' in kinds and any(isinstance(o.gate, (cirq.KrausChannel, cirq.MixedUnitaryChannel)) for o in ops_):
+                        continue
+                    if 'gmeasured-nocc' in kinds and any(cirq.control_keys(o) for o in ops_):
+                        continue
+                case_no += 1
+                run_case(ctx, cirq, cfg, circuit.copy(), 'grid:' + name, False, False, checks, case_no)
+        if getattr(cfg, 'placement', False):
+            for name, circuit in placement_grid(cirq, ctx.rng):
+                case_no += 1
+                run_case(ctx, cirq, cfg, circuit, 'grid:' + name, False, False, checks, case_no)
     return case_no
 
 
@@ -1255,6 +1442,8 @@ def run(ctx):
     ctx.rule = ('every exported transformer x options (deep, tags_to_ignore, variants) on generated circuits: unitary circuits over the gate vocabulary (2-4 qubits), '
                 'circuits with mid-circuit/terminal measurements (invert masks, confusion maps, repeated keys), classical control (key, bit-mask, sympy conditions), '
                 'tags (ignored / innocent), empty moments, nested (repeated, tagged) CircuitOperations, qudits for the reorder-only family; '
+                'measurement-like operations of every kind (Pauli-basis measurements X/Y/Z, +/-, 1-2 qubits, keyed Kraus / mixed-unitary channels) mid-circuit and terminal; '
+                'circuits over 2-4 distinct gates in many placements; fixed grids (measurement-like neighbourhoods x every measuring configuration, placement grid x insertion sort); '
                 'non-trivial = >=2 operations and the output differs from the input; distinct by (transformer, options, circuit)')
     ctx.assumptions += ['float tolerance 1e-6 for the numeric comparison', 'operations enter the model through their own cirq.unitary/kraus/measurement description',
                         'CircuitOperation.mapped_circuit is used to flatten nested circuits on both sides']
@@ -1272,7 +1461,7 @@ def run(ctx):
     mult = 1 if ctx.tier == 'quick' else 10
     configs = make_configs(cirq, mods)
     checks = []
-    case_no = 0
+    case_no = grid_stream(ctx, cirq, configs, checks, 0)       # first: a failure is reported on the smallest input that shows it
     for cfg in configs:
         n = max(3, int(round(16 * cfg.n * mult)))
         for _ in range(n):
